@@ -3,4 +3,4 @@
 f=$(readlink -f $1)
 mkdir -p /verif/work/scratch
 echo "{\"Replace\":{\"/repo/v2/zz_scratch_test.go\":\"$f\"}}" > /verif/work/scratch/ov.json
-cd /repo/v2 && GOFLAGS=-mod=mod GOPROXY=off TMPDIR=/verif/work/scratch go test -tags verif -overlay /verif/work/scratch/ov.json -vet=off -count=1 -run TestScratch -v . 2>&1 | grep -v "^=== RUN\|^--- PASS\|^PASS\|^ok"
+cd /repo/v2 && GOFLAGS=-mod=mod GOPROXY=off TMPDIR=/verif/work/scratch go test -tags verif -overlay /verif/work/scratch/ov.json -vet=off -count=1 -timeout 100s -run TestScratch -v . 2>&1 | grep -v "^=== RUN\|^--- PASS\|^PASS\|^ok"
